@@ -119,4 +119,31 @@ CHECKS = {
                "vm_compute adequacy decision on tables regenerated from the "
                "source + fresh-twin differential search",
  },
+ "C19": {
+  "text": "Theorems (all N >= 1, all max_parts >= 1, all worker counts, all "
+          "schedulers): the chunk arithmetic step=ceil(N/max_parts), "
+          "parts=ceil(N/step) yields non-empty contiguous chunks covering "
+          "[0,N) exactly (so the float expression for max_parts cannot matter "
+          "and the break is dead); slice reassembly and sum reassembly over "
+          "these chunks equal the serial vector / sum; submitting ids 0..p-1 "
+          "to arbitrary workers and retrieving them in that order never "
+          "raises and returns each call's own result under per-worker FIFO "
+          "delivery (and fails out of order). The skeleton of the three "
+          "master loops (canonical arithmetic, unconditional submit_call, "
+          "id = index, same range, reassembly kind) and the pool split are "
+          "regenerated from network.py on every run and must satisfy "
+          "loop_ok. Chunk bounds actually shipped by the running master are "
+          "compared with the model inside Coq. Search: the four measures "
+          "with the mpi module replaced in-process by a scheduler-controlled "
+          "stand-in vs the serial result, chunk kernels on random partitions.",
+  "design_ref": "DESIGN.md section 5, C19",
+  "note": "trusted: the stand-in implements utils/mpi.py's master-side "
+          "protocol (it is not mpi4py); that a chunk kernel's per-row result "
+          "does not depend on the chunk it runs in is checked on random "
+          "partitions, not proved; multiprocessing pool only in the thorough "
+          "tier; rtol 1e-9 for summation order",
+  "technique": "Coq proofs (nia chunk arithmetic, chain induction, protocol "
+               "invariant) + regenerated loop skeletons + differential runs "
+               "under a controlled scheduler",
+ },
 }
